@@ -78,7 +78,7 @@ fn main() {
     };
     let code = match prop.as_str() {
         "C01" => dispatch(&NetEngine { prop: NetProp::C01 }, &mode),
-        "C02" => dispatch(&NetEngine { prop: NetProp::C02 }, &mode),
+        "C02" => dispatch(&engines::c02::C02Engine, &mode),
         "C03" => dispatch(&NetEngine { prop: NetProp::C03 }, &mode),
         "C04" => dispatch(&NetEngine { prop: NetProp::C04 }, &mode),
         "C12" => dispatch(&engines::snapxfer::XferEngine, &mode),
@@ -88,7 +88,7 @@ fn main() {
         "C17" => dispatch(&engines::teehist::ThEngine, &mode),
         "C18" => dispatch(&engines::sbrowse::SbEngine, &mode),
         "C19" => dispatch(&engines::buffer::BufEngine, &mode),
-        "C20" => dispatch(&engines::multi::MultiEngine, &mode),
+        "C20" => dispatch(&engines::multi::MultiEngine { c02: false }, &mode),
         _ => {
             eprintln!("unknown property {}", prop);
             2
